@@ -48,6 +48,21 @@ Definition mon_C18 (prefix stream : list N) (ops : list op) (rs : list ores) (wr
   && is_prefix (concat (map data_of rs)) (prefix ++ stream)
   && list_eqb N.eqb written (accepted ops rs).
 
+(* end of stream is never invented: a read that had room and delivered nothing (= EOF for the caller) is
+   legitimate only once every byte of prefix ++ stream has been delivered ([got] = bytes delivered so far) *)
+Fixpoint eof_ok (total : nat) (ops : list op) (rs : list ores) (got : nat) : bool :=
+  match ops, rs with
+  | o :: ops', r :: rs' =>
+      match o, r with
+      | ORead cap pre, XData bs =>
+          Nat.leb cap pre || negb (Nat.eqb (length bs) 0) || Nat.eqb got total
+      | _, _ => true
+      end && eof_ok total ops' rs' (got + length (data_of r))
+  | _, _ => true
+  end.
+Definition mon_C18_eof (prefix stream : list N) (ops : list op) (rs : list ores) : bool :=
+  eof_ok (length (prefix ++ stream)) ops rs 0.
+
 Definition has_err (s : list rd) : bool :=
   existsb (fun r => match r with RErr => true | _ => false end) s.
 
